@@ -47,6 +47,12 @@ def cid_specs(draw, kinds=KINDS, max_fields=5, types=gen_fields.TYPES, max_heade
         fmt["line_delimiter"] = draw(st.sampled_from(["LF", "LF", "Any", "CRLF", "CR"]))
     if kind in ("excel", "ods"):
         fmt["sheet"] = draw(st.sampled_from([None, None, 2]))
+    if fmt["format"] == "delimited" and draw(st.integers(0, 2)) == 0:
+        # another documented dialect; cells are rendered accordingly (gen_tables.delimited_text)
+        delimiter, quote, escape = draw(st.sampled_from(DIALECTS))
+        if delimiter in (fmt["decimal"], fmt["thousands"]):
+            delimiter = "|"
+        fmt["item_delimiter"], fmt["quote_character"], fmt["escape_character"] = delimiter, quote, escape
     # the order of the CID's rows (see cidlib.cid_rows): same meaning, another arrangement
     fmt["layout"] = draw(st.sampled_from([None, None, None, "late-properties", "early-checks", "both"]))
     n_fields = draw(st.integers(1, max_fields))
@@ -170,8 +176,24 @@ def tables(draw, spec, max_rows=8, ragged=True, bad=True):
 
 
 # -- rendering -------------------------------------------------------------------------------
-def delimited_text(rows, line_end="\n"):
-    return "".join(",".join('"' + cell.replace('"', '""') + '"' for cell in row) + line_end for row in rows)
+# (item delimiter, quote character, escape character): the defaults and other documented choices
+DIALECTS = [(",", '"', '"'), (";", "'", '"'), ("|", '"', "\\"), (",", "'", "\\"), (";", '"', '"'), ("|", "'", '"'),
+            ("\t", '"', '"'), (":", "!", "\\")]
+
+
+def delimited_text(rows, line_end="\n", fmt=None):
+    """Every cell between quotes, quote (and escape) characters inside escaped the way the dialect of ``fmt`` says."""
+    fmt = fmt or {}
+    delimiter = fmt.get("item_delimiter") or ","
+    quote = fmt.get("quote_character") or '"'
+    escape = fmt.get("escape_character") or '"'
+
+    def spelled(cell):
+        if escape == quote:
+            return quote + cell.replace(quote, quote + quote) + quote
+        return quote + cell.replace(escape, escape + escape).replace(quote, escape + quote) + quote
+
+    return "".join(delimiter.join(spelled(cell) for cell in row) + line_end for row in rows)
 
 
 _FIXED_ENDS = {"LF": "\n", "CR": "\r", "CRLF": "\r\n", "Any": "\n", None: "\n", "None": ""}
@@ -207,7 +229,7 @@ def write_source(spec, rows, tmpdir, via="stream", name="data"):
     fmt = spec["fmt"]
     kind = fmt["format"]
     if kind == "delimited":
-        text = delimited_text(rows)
+        text = delimited_text(rows, fmt=fmt)
         if via == "stream":
             return io.StringIO(text, newline=""), "<io>"
         path = os.path.join(tmpdir, name + ".csv")
